@@ -46,7 +46,7 @@ func main() {
 	seed := lib.Seed()
 	nh := 60
 	if lib.Tier() == "thorough" {
-		nh = 600
+		nh = 300
 	}
 	if mode == "search" {
 		nh = 150
